@@ -50,6 +50,12 @@ class Tokens:
     def __init__(self, F):
         self.F = F
         self._layout_memo = {}
+        # `len` methods of the type of a member called `seed` (the seed container is created with n bytes)
+        for a in F.adts.values():
+            for v in a.get("variants", []):
+                for fl in v["fields"]:
+                    if fl.get("name") == "seed" and fl.get("ty", {}).get("path"):
+                        SEED_LEN_FNS.add(fl["ty"]["path"] + "::len")
 
     # ------------------------------------------------------------------ symbolic sizes
     def sym(self, f, operand):
@@ -425,6 +431,9 @@ def const_token(o, f=None):
     return ("CONST", None, str(o.get("s"))[:40])
 
 
+SEED_LEN_FNS = set()
+
+
 def sym_expr(e):
     if not isinstance(e, tuple):
         return "?"
@@ -443,7 +452,7 @@ def sym_expr(e):
             return sym_expr(e[2][0])
         if last == "len" and e[2]:
             inner = e[2][0]
-            if any(x[0] == "field" and x[2] == "seed" for x in expr.walk(inner)):
+            if any(x[0] == "field" and x[2] == "seed" for x in expr.walk(inner)) or core.strip_generics(e[1]) in SEED_LEN_FNS:
                 return "n"
             return "len(%s)" % short_src(inner)
         if last in ("iter_len", "prng_len") and e[2]:
